@@ -1756,12 +1756,16 @@ def run(tier, seed):
             "reduce(initial=), reduceat} x ordered pairs of 24 operand kinds (the property's nine and variants incl. partly-zero bare arrays, lists and lists of quantities) x 6 dimension "
             "families x 5 shape combinations (quick: one family/shape per combination, all families for the "
             "commensurability-requiring ufuncs on the nine main kinds; thorough: all, plus every ordered pair of distinct "
-            "registry dimensions); array functions with >= 2 value operands x 10 operand kinds; __setitem__/.to() over unit "
+            "registry dimensions); histories: every binary commensurability-requiring ufunc x {call, out=, operator, in-place} x 16 "
+            "ordered kind pairs x families, the call made after 18 earlier calls (comparisons, ==/!=, multiply, divide, logical_and, "
+            "zero partners; both operand orders) on the same operands in one interpreter, model = runHistory under the regenerated "
+            "memo configuration, rule-memo growth compared with lru_cache cache_info; array functions with >= 2 value operands x 10 operand kinds; __setitem__/.to() over unit "
             "pairs; helper functions over object trees. distinct = distinct (operation, form, kinds, family, shape); every "
             "case executes the real library")
     chk.assumptions = [
         "NumPy's kernels and Python's operator dispatch are outside the model: the harness supplies whether NumPy refuses the stripped call and which ufunc an operator form reaches",
         "comparisons (ordering, ==, !=, isclose/allclose) with a dimensionless operand are treated as the documented 'dimensionless operand' exception",
         "electromagnetic CGS<->SI pairs are commensurable for .to()/__setitem__ (documented conversion; C03 covers it)",
+        "history theorems assume exact dictionary-key equality (KeyEqExact: one registry, Unit.__eq__/__hash__ identify only equal units); which process-wide state exists is read from unyt/array.py by ast (state kept in other modules is exercised by the history cases only)",
     ]
     return chk.finish(rule)
